@@ -142,10 +142,17 @@ def work_dynamic(chunk, st):
                 elif k == 'sk-ssh-ed25519-cert-v01@openssh.com':
                     hk2[k] = wire.sk_ed25519_cert_tree(wire.ed25519_blob_tree(b'\x44' * 32))
             variants.append(('with-optional-host-keys', dict(kw, key=keys2), hk2))
+        gex_of = {}
+        if gex is not None and p['server_policy']:
+            # the same moduli served the other ways a server may answer a request it cannot satisfy exactly
+            for style in (P.LENIENT, P.ROUNDUP, P.OPENSSH):
+                vn = 'gex-answers-%s' % style
+                variants.append((vn, kw, hk))
+                gex_of[vn] = P.GexPolicy(sorted(set(dh.values()))[:1], style)
         for vname, kw, hk in variants:
           for fmt in ('text', 'json'):
               if p['server_policy']:
-                  res = H.audit(P.Server(host_keys=hk, gex=gex, **kw), opts=['-n', '--skip-rate-test'] + (['-j'] if fmt == 'json' else []))
+                  res = H.audit(P.Server(host_keys=hk, gex=gex_of.get(vname, gex), **kw), opts=['-n', '--skip-rate-test'] + (['-j'] if fmt == 'json' else []))
               else:
                   res = H.client_audit(P.Client(**kw), opts=['-n'] + (['-j'] if fmt == 'json' else []))
               st.execution(res.world, outcome=('policy-peer', res.status, fmt), root=('policy-peer', pname, vname, fmt), nontrivial=('policy-peer', pname, vname, fmt))
